@@ -179,3 +179,15 @@ Proof.
   intros P chord dj. cbv zeta. apply joint_node_length. cbv zeta in H. exact (proj1 H).
 Qed.
 Print Assumptions C12_joints.
+
+(* the integrability hypotheses discharged (Proofs/InterpContP.v: np.interp over strictly increasing abscissae is a sum of ramps, hence
+   continuous): for constant or piece-wise linear (strictly increasing table) sweep and dihedral, sweep never +-90 degrees, the generated
+   curve is the documented one with no further assumption.  (Step tables, which repeat a node, stay under the hypothesis form above.) *)
+From MuxV Require Import Proofs.InterpP Proofs.InterpContP.
+Theorem C12_quarter_chord_curve_tables : forall dr sw di, wf_dist sw -> wf_dist di -> (forall s, cos (angle_val dr sw s) <> 0) ->
+  forall left_side root b rest s, nondecr 0 rest -> 0 <= s <= last rest 0 ->
+  qc_code dr sw di left_side root b (0 :: rest) s = curve_spec dr sw di left_side root b s.
+Proof. exact qc_standard_is_curve_tables. Qed.
+Print Assumptions C12_quarter_chord_curve_tables.
+Example C12_tables_nonvacuous : wf_dist (DTab [(0, 2); (0.5, 4); (1, 10)]) /\ wf_dist (DConst 3).
+Proof. cbn. repeat split; lra. Qed.
